@@ -58,6 +58,7 @@ inductive Stage where
   | decompose      -- in_protocol.decompose_incoming_envelope (bad envelope)
   | genContexts    -- in_protocol.generate_method_contexts    (unknown method)
   | deserialize    -- in_protocol.deserialize                 (invalid argument)
+  | dispatch       -- Application.call_wrapper fails before the user function is entered
   | user           -- the user function raises
   | serialize      -- out_protocol.serialize                  (unserialisable return value)
   deriving DecidableEq, Repr
@@ -78,31 +79,36 @@ structure Cfg where
 inductive ProcCase where
   | ok
   | callRaise (k : ExcKind)   -- a method_call listener raises
+  | dispatchRaise (k : ExcKind) -- call_wrapper raises before entering the user function
   | userRaise (k : ExcKind)   -- the user function raises
   | retRaise (k : ExcKind)    -- a method_return_object listener raises
   deriving DecidableEq, Repr
 
-/-- Measured on /repo by harness/c14.py (T1) on every run: the events each function fires, as seen by
-    a listener registered first on the application's manager. `none` = the exception escapes. -/
+/-- one measurement: the events a function fired (as seen by a listener registered first on the
+    application's manager, with the runs of the user function), and whether an exception left it -/
+structure Meas where
+  evs : List Sym
+  escapes : Bool
+  deriving DecidableEq, Repr
+
+/-- Measured on /repo by harness/c14.py (T1) on every run, function by function. -/
 structure Facts14 where
   /-- MethodContext.__init__ -/
   ctxInit : List Event
   /-- MethodContext.close -/
   ctxClose : List Event
   /-- Application.process_request -/
-  proc : ProcCase → List Sym
+  proc : ProcCase → Meas
   /-- ServerBase.finalize_context, ctx.out_error is None / is set -/
   finOk : List Event
   finErr : List Event
   /-- ServerBase.generate_contexts when the in-protocol raises a Fault / another exception -/
-  genCtxFault : List Event
-  genCtxExc : Option (List Event)
+  genCtx : ExcKind → Meas
   /-- ServerBase.get_in_object when deserialize raises a Fault / another exception -/
-  getInFault : List Event
-  getInExc : Option (List Event)
-  /-- WsgiApplication.handle_rpc when get_out_string raises: events fired before the error response
+  getIn : ExcKind → Meas
+  /-- WsgiApplication.handle_rpc when get_out_string raises: what is fired before the error response
       is built -/
-  wsgiSerFail : Option (List Event)
+  wsgiSerFail : Meas
   /-- does the output protocol fire after_serialize when it serialises a fault -/
   afterSerOnFault : OutProto → Bool
 
@@ -137,6 +143,7 @@ def procCase (inj : Inj) (co ro : Option ExcKind) : ProcCase :=
   match co with
   | some k => .callRaise k
   | none =>
+    if inj.stage = .dispatch then .dispatchRaise inj.kind else
     if inj.stage = .user then .userRaise inj.kind else
     match ro with
     | some k => .retRaise k
@@ -166,20 +173,23 @@ def runCore (F : Facts14) (afterSer : Bool) (t : Transport) (inj : Inj) (co ro :
   match inj.stage with
   | .createInDoc | .decompose | .genContexts =>
     -- ServerBase.generate_contexts: no descriptor yet
-    match (match inj.kind with | .fault => some F.genCtxFault | .exc => F.genCtxExc) with
-    | none => ⟨start, true⟩
-    | some evs => ⟨start ++ fires (.ctx false) evs ++ errTail F afterSer t false, false⟩
+    let m := F.genCtx inj.kind
+    if m.escapes then ⟨start ++ symSteps false m.evs, true⟩
+    else ⟨start ++ symSteps false m.evs ++ errTail F afterSer t false, false⟩
   | .deserialize =>
     -- ServerBase.get_in_object
     let pe := if inj.inner then fires .inProt [.beforeDeserialize] else []
-    match (match inj.kind with | .fault => some F.getInFault | .exc => F.getInExc) with
-    | none => ⟨start ++ pe, true⟩
-    | some evs => ⟨start ++ pe ++ fires (.ctx true) evs ++ errTail F afterSer t true, false⟩
-  | .none | .user | .serialize =>
+    let m := F.getIn inj.kind
+    if m.escapes then ⟨start ++ pe ++ symSteps true m.evs, true⟩
+    else ⟨start ++ pe ++ symSteps true m.evs ++ errTail F afterSer t true, false⟩
+  | .none | .dispatch | .user | .serialize =>
     let deser := fires .inProt [.beforeDeserialize, .afterDeserialize]
     let pc := procCase inj co ro
-    let proc := symSteps true (F.proc pc)
-    if pc.faulted then
+    let proc := symSteps true (F.proc pc).evs
+    if (F.proc pc).escapes then
+      -- process_request lets the exception through: nothing in the transports catches it
+      ⟨start ++ deser ++ proc, true⟩
+    else if pc.faulted then
       -- get_out_object leaves ctx.out_error set
       ⟨start ++ deser ++ proc ++ errTail F afterSer t true, false⟩
     else if inj.stage = .serialize then
@@ -187,9 +197,8 @@ def runCore (F : Facts14) (afterSer : Bool) (t : Transport) (inj : Inj) (co ro :
       match t with
       | .serverBase => ⟨start ++ deser ++ proc ++ pe, true⟩   -- get_out_string raises to the caller
       | .wsgi =>
-        match F.wsgiSerFail with
-        | none => ⟨start ++ deser ++ proc ++ pe, true⟩
-        | some evs => ⟨start ++ deser ++ proc ++ pe ++ fires (.ctx true) evs ++ errTail F afterSer t true, false⟩
+        if F.wsgiSerFail.escapes then ⟨start ++ deser ++ proc ++ pe ++ symSteps true F.wsgiSerFail.evs, true⟩
+        else ⟨start ++ deser ++ proc ++ pe ++ symSteps true F.wsgiSerFail.evs ++ errTail F afterSer t true, false⟩
     else
       ⟨start ++ deser ++ proc ++ fires .outProt [.beforeSerialize, .afterSerialize]
         ++ fires (.ctx true) F.finOk ++ onWsgi t [.wsgiReturn] ++ closeSteps F t, false⟩
